@@ -8,7 +8,7 @@
 //   IS [NOT] NULL is two-valued and negation flips it; BETWEEN / IN / LIKE: a NULL operand (for IN
 //   also a miss against a list containing NULL) gives NULL, otherwise negation flips the verdict.
 //@trusted [env] self.evaluate(sub-expression) is abstract (val(e)); DataType comparison (>=, <=: C19 unit types) and HashSet<DataType> (insert / contains by the DataType equality of C19) are abstract; Blob::like is abstract
-//@trusted [sub] `a[0] >= b[0] && a[0] <= c[0]` is ge(&a[0], &b[0]) && le(&a[0], &c[0]); `for item in eval { set.insert(item); }` is set.extend_from(eval); `"..".to_string()` is msg("..")
+//@trusted [sub] `a[0] >= b[0]` / `a[0] <= c[0]` are ge(&a[0], &b[0]) / le(&a[0], &c[0]); `for item in eval { set.insert(item); }` is set.extend_from(eval); `"..".to_string()` is msg("..")
 use vstd::prelude::*;
 
 verus! {
@@ -73,8 +73,14 @@ pub open spec fn list_vals(list: Seq<BoundExpression>, n: int) -> Set<DataType>
 
 // three-valued verdicts
 pub open spec fn tv_is_null(v: DataType, negated: bool) -> DataType { DataType::Bool(Bool((v is Null) != negated)) }
+// x BETWEEN lo AND hi is x >= lo AND x <= hi in Kleene logic: a comparison with a NULL operand is
+// unknown, an AND with a false side is false
+pub open spec fn tv_cmp_ge(v: DataType, lo: DataType) -> Option<bool> { if v is Null || lo is Null { None } else { Some(ge_spec(v, lo)) } }
+pub open spec fn tv_cmp_le(v: DataType, hi: DataType) -> Option<bool> { if v is Null || hi is Null { None } else { Some(le_spec(v, hi)) } }
 pub open spec fn tv_between(v: DataType, lo: DataType, hi: DataType, negated: bool) -> DataType {
-    if v is Null || lo is Null || hi is Null { DataType::Null } else { DataType::Bool(Bool((ge_spec(v, lo) && le_spec(v, hi)) != negated)) }
+    if tv_cmp_ge(v, lo) == Some(false) || tv_cmp_le(v, hi) == Some(false) { DataType::Bool(Bool(negated)) }
+    else if tv_cmp_ge(v, lo) == Some(true) && tv_cmp_le(v, hi) == Some(true) { DataType::Bool(Bool(!negated)) }
+    else { DataType::Null }
 }
 pub open spec fn tv_in(v: DataType, s: Set<DataType>, negated: bool) -> DataType {
     if v is Null { DataType::Null } else if s.contains(v) { DataType::Bool(Bool(!negated)) }
@@ -106,7 +112,8 @@ impl ExpressionEvaluator {
 //@fn crates/axmos-db/src/runtime/eval.rs | impl<'a> ExpressionEvaluator<'a> | evaluate
 //@ arm /BoundExpression::Between \{\s*expr,\s*low,\s*high,\s*negated,\s*\} => \{/ => fn between_arm(&self, expr: &Box<BoundExpression>, low: &Box<BoundExpression>, high: &Box<BoundExpression>, negated: &bool) -> EvaluationResult<Vec<DataType>>
 //@ sub /"([^"]*)"\.to_string\(\)/ => msg("\1")
-//@ sub /\((\w+)\[0\] >= (\w+)\[0\] && (\w+)\[0\] <= (\w+)\[0\]\)/ => (ge(&\1[0], &\2[0]) && le(&\3[0], &\4[0]))
+//@ sub /(\w+)\[0\] >= (\w+)\[0\]/ => ge(&\1[0], &\2[0])
+//@ sub /(\w+)\[0\] <= (\w+)\[0\]/ => le(&\1[0], &\2[0])
 //@ requires
 //@   val(expr).len() >= 1 && val(low).len() >= 1 && val(high).len() >= 1,
 //@ ensures
